@@ -98,7 +98,12 @@ def gen_cmd(rng):
         return {'cmd': u'\n'.join([u'begin'] + inner + [u'end'])}
     if r < 0.93:
         inner = [u'out %d %d' % (rng.choice([0, 3, 40]), rng.randrange(1000)) for _ in range(rng.randint(0, 2))]
-        return {'cmd': u'\n'.join([u'begin'] + inner), 'incomplete': True}
+        lead = []
+        if rng.random() < 0.5:
+            # complete lines that print something come first; only the tail is incomplete.  Their output was collected
+            # before the ValueError and must not turn up in the next command's result
+            lead = [u'out %d %d' % (rng.choice([1, 3, 40]), rng.randrange(1000)) for _ in range(rng.randint(1, 2))]
+        return {'cmd': u'\n'.join(lead + [u'begin'] + inner), 'incomplete': True}
     if r < 0.97:
         # verbatim block (like a here-document / a quoted multi-line string): blank and indented lines matter
         body = [rng.choice([u'', u'', u'  indented', u'line %d' % rng.randrange(100), u' ']) for _ in range(rng.randint(1, 4))]
